@@ -101,7 +101,7 @@ func safeAdd(a, b int) int {
 	// Ignore negative operands.
 	if a < 0 {
 		if b < 0 {
-			return 1
+			return 0
 		}
 		return b
 	} else if b < 0 {
